@@ -402,7 +402,9 @@ func (ex *Ex) definerFact(st *State, app *T, d *definer) *T {
 	}
 	for _, p := range fn.Params {
 		if !bound[p.Name()] {
-			return nil // result depends on parameters the symbol does not mention
+			// a parameter the symbol does not mention (e.g. a context): the named result does not
+			// depend on it by assumption; bind it to an arbitrary value
+			pst.regs[p] = Val{T: Var("any$"+p.Name(), w.SortOf(p.Type()))}
 		}
 	}
 	cf := &Frame{Fn: fn, Ctr: d.ctr, Name: w.funcName(fn), Entry: pst}
